@@ -309,6 +309,9 @@ func (g *Gen) calleeEnv(t callTarget, c *ssa.CallCommon, args []string, recv str
 		}
 		env.vars[fmt.Sprintf("arg%d", i)] = v
 	}
+	if t.dynamic && recv != "" {
+		env.vars["self"] = Val{T: recv, Ty: tRef}
+	}
 	return env
 }
 
@@ -406,6 +409,7 @@ func (g *Gen) havocVarsMono(h *Heap, ws *WriteSet, guard string) *Heap {
 	h2 := h.HavocVars(names)
 	g.vc.AssumeAt(guard, App(">=", g.model.allocNow(h2), g.model.allocNow(h)), "allocation counter is monotone")
 	g.assumeMonotone(h, h2, guard, names)
+	g.assumeFreshOnly(h, h2, guard, ws)
 	return h2
 }
 
@@ -453,7 +457,7 @@ func (g *Gen) applyContract(t callTarget, c *ssa.CallCommon, args []string, recv
 	switch {
 	case ct.HasAssigns:
 		var err error
-		post, err = g.havocDesignators(h, ct.Assigns, envPre, guard)
+		post, err = g.havocDesignators(h, ct.allAssigns(), envPre, guard)
 		if err != nil {
 			g.errorf("%s: assigns of %s: %v", ct.File, t.key, err)
 		}
@@ -573,6 +577,29 @@ func (g *Gen) finishReturns() {
 		}
 	}
 	pos := g.pos(sites[0].pos)
+	// ghost updates declared by the contract (`sets`): performed at exit, visible to ensures and frames
+	for _, sd := range g.contract.Sets {
+		v, err := env.EvalVal(sd.E)
+		if err != nil {
+			g.errorf("%s: sets %s: %v", sd.Line, sd.Target, err)
+			continue
+		}
+		pre := g.envAt(exit, nil)
+		pre.vars = env.vars
+		cells, err := g.designatorCells(sd.Target, pre)
+		if err != nil || len(cells) != 1 {
+			g.errorf("%s: sets target %s: %v", sd.Line, sd.Target, err)
+			continue
+		}
+		c := cells[0]
+		cur := exit.Get(c.varName, c.sort)
+		if len(c.addrs) == 0 {
+			exit = exit.Set(c.varName, c.sort, v.T)
+		} else {
+			exit = exit.Set(c.varName, c.sort, nestedStore(cur, c.addrs, v.T))
+		}
+		env.now = exit
+	}
 	for i, e := range g.contract.Ensures {
 		t, err := env.EvalBool(e.E)
 		if err != nil {
